@@ -1,25 +1,18 @@
 #!/usr/bin/env python3
+"""
+Demonstration for the known findings C06.R6 (maintainer aid; NOT a registered check, never run by one).
 
+Usage: PYTHONPATH=/repo/src /venv/bin/python findings/C06_loop_definitions_probe.py /repo
 
-
-Usage: /venv/bin/python C06a.demo.py [REPO_ROOT]      (default /tmp/seed/C06-wt)
-
-The two functions below have a use `x = x <op> k` that is reached by TWO
-definitions of x: one along a short path (which the work-list visits first) and
-one along a longer path (an `if` body of two statements / a `break` out of a
-loop) whose facts arrive at the use in a later visit.  The statement re-defines
-x itself, so the newly arrived definition does not change its OUT set - only its
-IN set.  The reaching-definition edges (definition -> use) that the analysis
-records in its per-method symbol graph must nevertheless contain both
-definitions.
-
-Exit status 0: every checked use has exactly the expected reaching definitions
-(both in the phase-2 bottom-up analysis and in the default phase-3 analysis).
-Exit status 1: some use misses / gains a definition.
+Runs lian in-process (phase 2 and phase 3) on three small Python functions with a loop and prints, per use, the
+source lines of the definitions linked to it.  On the pinned tree `y = x` after `for i in b: x = 2` (function h, line 5)
+is linked to the definition on line 2 only; the definition on line 4 (loop body) is missing.  Same for the while loop
+in w (line 23: only line 19, line 21 missing) and for the loop header's own condition.
+(The in-process harness is the one of seeded/C06a/demo.py.)
 """
 import sys, os, json, subprocess, tempfile, shutil
 
-ROOT = os.path.abspath(sys.argv[1] if len(sys.argv) > 1 and not sys.argv[1].startswith("--") else "/tmp/seed/C06-wt")
+ROOT = os.path.abspath(sys.argv[1] if len(sys.argv) > 1 and not sys.argv[1].startswith("--") else "/repo")
 
 PROGRAM = '''\
 def h(b):
